@@ -1,5 +1,5 @@
 #!/usr/bin/env python3
-# Validates every seeded change under /tmp/seeded against /repo HEAD in a scratch worktree:
+# Validates every seeded change under $SEED_SRC (default /tmp/seeded) against /repo HEAD in a scratch worktree:
 # the patch applies, the pinned suite still passes with it, the demonstration fails with it and passes without it.
 # Kept changes are copied to /verif/seeded/<id>/<k>/ (patch.diff, demo files, meta.json with the validation record).
 import json, os, subprocess, shutil, sys, glob
@@ -18,7 +18,8 @@ rc,out=sh(f'git -C /repo worktree add --detach {WT} HEAD')
 assert rc==0, out
 results={}
 base=json.load(open('/root/.vp/BASELINE.json'))
-for d in sorted(glob.glob('/tmp/seeded/C[0-9][0-9]/[ab]')):
+SRC=os.environ.get('SEED_SRC','/tmp/seeded')
+for d in sorted(glob.glob(SRC+'/C[0-9][0-9]/[a-z]')):
     pid=d.split('/')[3]; k=d.split('/')[4]
     if only and pid not in only: continue
     meta=json.load(open(d+'/meta.json'))
@@ -59,6 +60,6 @@ for d in sorted(glob.glob('/tmp/seeded/C[0-9][0-9]/[ab]')):
             'suite_with_change':'all pinned tests pass except the two root-sandbox permission tests','demo_with_change':'FAIL','demo_without_change':'PASS',
             'patch_rebased': patch.endswith('rebased.diff')}
         json.dump(meta, open(dst+'/meta.json','w'), indent=1)
-json.dump(results, open('/verif/.work/seeded_validation.json','w'), indent=1)
+json.dump(results, open('/verif/.work/seeded_validation_%s.json' % os.path.basename(SRC),'w'), indent=1)
 sh('git checkout -q -- . && git clean -fdq', cwd=WT)
 subprocess.run(f'git -C /repo worktree remove --force {WT}', shell=True)
